@@ -55,9 +55,15 @@ func (c16) Gen(rng *simrt.Rand, seed uint64, tier string) *Case {
 	if rng.Bool(0.3) && !two {
 		sql = fmt.Sprintf("SELECT s.id, m.ver AS ver FROM stream s %s meta m ON s.%s", join, map[bool]string{false: "k = m.k", true: "k = m.k AND s.k2 = m.k2"}[composite])
 	}
+	noAlias := false
+	if rng.Bool(0.2) && !two {
+		// no table alias: columns qualified by the table's own name, key fields derived from ON
+		noAlias = true
+		sql = fmt.Sprintf("SELECT id, meta.ver AS ver FROM stream %s meta ON %s", join, map[bool]string{false: "k = meta.k", true: "k = meta.k AND k2 = meta.k2"}[composite])
+	}
 	// window path: the row is enriched before Window.Add; CountingWindow(1) keyed by the joined
 	// column turns every probe into one delivered batch
-	windowed := !two && !composite && rng.Bool(0.2)
+	windowed := !two && !composite && !noAlias && rng.Bool(0.2)
 	if windowed {
 		sql = fmt.Sprintf("SELECT m.ver AS ver, count(*) AS c, collect(id) AS ids FROM stream %s meta m ON k = m.k GROUP BY m.ver, CountingWindow(1)", join)
 	}
@@ -100,8 +106,8 @@ func (c16) Gen(rng *simrt.Rand, seed uint64, tier string) *Case {
 		return v
 	}
 	tables := []TableSpec{{Name: "meta"}}
-	if composite {
-		tables[0].Keys = []string{"k", "k2"}
+	if composite && !(noAlias && rng.Bool(0.7)) {
+		tables[0].Keys = []string{"k", "k2"} // otherwise derived from the ON clause
 	}
 	for _, k := range keys {
 		if rng.Bool(0.5) {
